@@ -487,10 +487,35 @@ func runC08Qat(tier string, seed uint64, idx int) core.Result {
 		return best
 	}
 	lastCommit := q.CommitOffset()
+	// callers waiting for an offset to be committed (registered in non-decreasing offset order, as the leader does;
+	// several may wait for the same offset)
+	type waiter struct {
+		off  int64
+		done int
+		err  error
+	}
+	var waits []*waiter
+	lastWaitOff := int64(-1 << 62)
 	dups, inter := 0, 0
 	lastF := -1
 	for step := 0; step < 120 && r.Violations() == 0; step++ {
-		switch c := rng.IntN(10); {
+		switch c := rng.IntN(12); {
+		case c >= 10 && need > 0:
+			off := q.CommitOffset() + 1 + int64(rng.IntN(3))
+			if off < lastWaitOff {
+				off = lastWaitOff
+			}
+			if off > head+1 {
+				break
+			}
+			lastWaitOff = off
+			for n := 1 + rng.IntN(2); n > 0; n-- {
+				w := &waiter{off: off}
+				waits = append(waits, w)
+				q.WaitForCommitOffsetAsync(context.Background(), off, concurrent.NewOnce(func(any) { w.done++ }, func(e error) { w.err = e }))
+			}
+			r.Count("qat_waiters", 1)
+			trace = append(trace, fmt.Sprintf("wait(%d)", off))
 		case c < 3:
 			head++
 			_ = q.NextOffset()
@@ -552,6 +577,18 @@ func runC08Qat(tier string, seed uint64, idx int) core.Result {
 			r.Violate("C08/qat/commit-differs-from-model:"+kind, fmt.Sprintf("rf=%d: commit offset %d, model (highest offset whose whole prefix is acknowledged by >= %d followers) says %d; last events %v", rf, got, need, want, trace[max(0, len(trace)-6):]), wit)
 		}
 		lastCommit = got
+		for _, w := range waits {
+			switch {
+			case w.err != nil:
+				r.Violate("C08/qat/waiter-failed", fmt.Sprintf("a caller waiting for offset %d was failed: %v", w.off, w.err), wit)
+			case w.done > 1:
+				r.Violate("C08/qat/waiter-completed-twice", fmt.Sprintf("a caller waiting for offset %d was completed %d times", w.off, w.done), wit)
+			case w.off <= got && w.done == 0:
+				r.Violate("C08/qat/waiter-not-completed-at-its-commit", fmt.Sprintf("commit offset is %d, a caller waiting for offset %d has not been completed; last events %v", got, w.off, trace[max(0, len(trace)-6):]), wit)
+			case w.off > got && w.done > 0:
+				r.Violate("C08/qat/waiter-completed-before-its-commit", fmt.Sprintf("commit offset is %d, a caller waiting for offset %d was completed; last events %v", got, w.off, trace[max(0, len(trace)-6):]), wit)
+			}
+		}
 	}
 	if len(fols) >= 2 && dups > 0 && inter > 0 {
 		r.Nontrivial()
